@@ -1,6 +1,6 @@
 (* C09 — deriving operations are pure: inputs unchanged, results own their storage. *)
 From Anytype Require Import Base FloatBits Value Sorting Heap Slice HeapProofs.
-From Anytype Require Import Footprint DerivedIndependence.
+From Anytype Require Import Footprint DerivedIndependence HeapExt HeapExtProofs.
 Local Open Scope Z_scope.
 
 (* (1) heap level: a deriving/observing operation (Concat, SubList, Merge, Pluck, Keys, Values, Slice, Dict, Clone, Equals,
@@ -62,6 +62,46 @@ Theorem C09_mutating_old_containers_leaves_the_result : forall s o out ops,
     nth_error (st_heap (exec (fst (step s o)) ops)) id' = nth_error (st_heap (fst (step s o))) id'.
 Proof. exact mutating_old_containers_leaves_the_result. Qed.
 
+
+(* (5) EVERY deriving operation the property names, as operations of heap-level programs (HeapExt.v: Filter and its typed variants,
+   Map / MapValues / the typed Map variants / MapAsync of lists and objects, the typed slices, the Reduce family, String,
+   FormatString, the All family, the aggregates, NativeSlice / NativeDict, NewListFrom / NewObjectFrom, every ForEach variant):
+   none of them writes a cell that existed before (the old heap is a prefix of the new one, the variables are unchanged); what
+   they hand out is a cell that did not exist; mutating it never changes an older cell, and mutating older containers never
+   changes its top-level slots. The float oracles of the aggregates are arbitrary. *)
+Theorem C09_no_write_any_operation : forall (fadd fmul fdiv : Z -> Z -> Z) (of_int : Z -> Z) s o, xderiving o = true ->
+  exists extra, st_heap (fst (xstep_core fadd fmul fdiv of_int s o)) = st_heap s ++ extra /\
+                st_env (fst (xstep_core fadd fmul fdiv of_int s o)) = st_env s.
+Proof. exact xderiving_frame. Qed.
+Theorem C09_any_created_container_is_fresh : forall (fadd fmul fdiv : Z -> Z -> Z) (of_int : Z -> Z) s o out, xcreating o = true ->
+  snd (xstep_core fadd fmul fdiv of_int s o) = XRet (XO (OV out)) ->
+  forall id', (out = HL id' \/ out = HO id') ->
+  (length (st_heap s) <= id' < length (st_heap (fst (xstep_core fadd fmul fdiv of_int s o))))%nat.
+Proof. exact xcreated_is_fresh. Qed.
+Theorem C09_mutating_any_result_leaves_old_cells : forall (fadd fmul fdiv : Z -> Z -> Z) (of_int : Z -> Z) s o out r ops,
+  xcreating o = true -> snd (xstep_core fadd fmul fdiv of_int s o) = XRet (XO (OV out)) -> (exists id', out = HL id' \/ out = HO id') ->
+  r = length (st_env s) -> Forall (fun m => xbasic m r) ops ->
+  forall id, (id < length (st_heap s))%nat ->
+    nth_error (st_heap (xexec fadd fmul fdiv of_int (fst (xstep fadd fmul fdiv of_int s o)) ops)) id = nth_error (st_heap s) id.
+Proof. exact x_mutating_the_result_leaves_old_cells. Qed.
+Theorem C09_mutating_old_containers_leaves_any_result : forall (fadd fmul fdiv : Z -> Z -> Z) (of_int : Z -> Z) s o out ops,
+  xcreating o = true -> snd (xstep_core fadd fmul fdiv of_int s o) = XRet (XO (OV out)) ->
+  (forall r v id, nth_error (st_env s) r = Some v -> (v = HL id \/ v = HO id) -> (id < length (st_heap s))%nat) ->
+  Forall (fun m => exists r0, xbasic m r0 /\ (r0 < length (st_env s))%nat) ops ->
+  forall id', (out = HL id' \/ out = HO id') ->
+    nth_error (st_heap (xexec fadd fmul fdiv of_int (fst (xstep fadd fmul fdiv of_int s o)) ops)) id' =
+    nth_error (st_heap (fst (xstep fadd fmul fdiv of_int s o))) id'.
+Proof. exact x_mutating_old_containers_leaves_the_result. Qed.
+(* what Filter hands out: one new cell holding exactly the selected elements, in order (containers by reference) *)
+Theorem C09_filter_result : forall (fadd fmul fdiv : Z -> Z -> Z) (of_int : Z -> Z) s r p id l, reg_list s r = Some (id, l) -> exists id',
+  xstep_core fadd fmul fdiv of_int s (XLFilter r p) =
+    (with_heap s (st_heap s ++ [CList (filter (apply_pred p (st_heap s)) l)]), XRet (XO (OV (HL id')))) /\ id' = length (st_heap s).
+Proof. exact xfilter_content. Qed.
+(* the operations of Heap.v behave inside extended programs exactly as they do there *)
+Theorem C09_extended_programs_conservative : forall (fadd fmul fdiv : Z -> Z -> Z) (of_int : Z -> Z) prog s,
+  xrun fadd fmul fdiv of_int s (map Base prog) = map (fun p => (lift (fst p), snd p)) (run s prog).
+Proof. exact xrun_base. Qed.
+
 Print Assumptions C09_no_write.
 Print Assumptions C09_results_own_storage.
 Print Assumptions C09_step.
@@ -70,3 +110,9 @@ Print Assumptions C09_prefix_concat_refuted.
 Print Assumptions C09_created_is_fresh.
 Print Assumptions C09_mutating_the_result_leaves_old_cells.
 Print Assumptions C09_mutating_old_containers_leaves_the_result.
+Print Assumptions C09_no_write_any_operation.
+Print Assumptions C09_any_created_container_is_fresh.
+Print Assumptions C09_mutating_any_result_leaves_old_cells.
+Print Assumptions C09_mutating_old_containers_leaves_any_result.
+Print Assumptions C09_filter_result.
+Print Assumptions C09_extended_programs_conservative.
